@@ -7,6 +7,7 @@ package object
 // Heap invariants, assumed where a value is loaded and asserted where one is stored:
 // object containers and scopes never hold a nil Object.
 //@ nonnil elems []Object
+//@ nonnil boxed Object
 //@ nonnil values map[string]Object
 //@ nonnil field object.Error.Err
 //@ nonnil field object.Use.Content
